@@ -504,7 +504,7 @@ pub fn property() -> Property {
         post: None,
         parts: vec![
             Box::new(Part { name: "codec-sweep", driver: Driver::Enum(sweep_cases), prop: prop_sweep, exhaustive: true }),
-            Box::new(Part { name: "models", driver: Driver::Gen(strategy, 240_000, 960_000), prop, exhaustive: false }),
+            Box::new(Part { name: "models", driver: Driver::Gen(strategy, 240_000, 3_840_000), prop, exhaustive: false }),
         ],
     }
 }
